@@ -128,6 +128,39 @@ def reuse_cases():
     return res
 
 
+def exited_via_case():
+    """the user exit()s a proxied gateway, then terminates the group: terminate returns normally, nothing is left"""
+    import execnet
+
+    group = execnet.Group()
+    import atexit
+
+    atexit.unregister(group._cleanup_atexit)
+    sc = {"timeout": 1.0, "gws": [{"env": "idle", "execmodel": "thread", "topo": "via", "exited_before": True}]}
+    out = {"k": "terminate", "timeout_ms": 1000, "rounds": 2, "n": 2, "elapsed_ms": 0, "group_len": -1, "leftover": -1, "err": "", "sc": sc}
+    before = procs.descendants(os.getpid())
+    try:
+        m = group.makegateway("popen//id=m")
+        gw = group.makegateway("popen//via=m//id=w")
+        gw.remote_exec("pass").waitclose(10)
+        started = procs.descendants(os.getpid()) - before
+        gw.exit()
+        t0 = time.monotonic()
+        try:
+            group.terminate(timeout=1.0)
+        except Exception as e:  # noqa: BLE001
+            out["err"] = type(e).__name__
+        out["elapsed_ms"] = int((time.monotonic() - t0) * 1000)
+        out["group_len"] = len(group)
+        gone = procs.wait_gone(started, 1.5)
+        left = [p for p, ms in gone.items() if ms == -1]
+        out["leftover"] = len(left)
+        procs.reap(left)
+    except Exception as e:  # noqa: BLE001
+        out["err"] = "harness:" + type(e).__name__ + ":" + str(e)[:100]
+    return [out]
+
+
 def mkfail_cases():
     """a makegateway call that fails leaves no process behind: at once when it is refused up front (id taken, bad spec),
     at the latest after terminate() when the failure happens once the interpreter runs (chdir / nice / env configuration)"""
@@ -203,6 +236,7 @@ def run(ctx):
         scenario(sc, results, lock)
     results += mkfail_cases()
     results += reuse_cases()
+    results += exited_via_case()
     herr = [x for x in results if str(x.get("err", "")).startswith("harness:")]
     if herr:
         ctx.machinery(json.dumps(herr[0])[:600])
